@@ -8,3 +8,7 @@ import Sio.Props.C20
 #print axioms Sio.C20.race_raise_residue
 #print axioms Sio.C20.race_lost_swallowed_residue
 #print axioms Sio.C20.full_statement_fails
+#print axioms Sio.C20.serial_reason_is_gate_winner
+#print axioms Sio.C20.serial_reason_follows_gate
+#print axioms Sio.C20.serial_reason_names_cause_in_progress
+#print axioms Sio.C20.reason_names_passing_task_any_schedule
